@@ -62,9 +62,13 @@ def build_case(rng: random.Random) -> dict:
             case['header'] = T.rand_nonempty_text(rng)
         return case
     if kind == 'append':
-        return {'kind': kind, 'base': T.rand_content(rng, 2),
+        case = {'kind': kind, 'base': T.rand_content(rng, 2),
                 'ops': [[rng.choice(['append', 'iadd', 'add']), T.rand_content(rng, 2)]
                         for _ in range(rng.randint(1, 4))]}
+        if rng.random() < 0.04:
+            # a block of a thousand lines and more (a generated table, a long listing)
+            case['bulk'] = rng.choice([990, 999, 1000, 1001, 2500])
+        return case
     if kind == 'trim':
         pool = ['', '', ' ', '\t', 'a', ' b ', 'c', '0']
         return {'kind': kind, 'lines': [rng.choice(pool) for _ in range(rng.randint(0, 8))],
@@ -151,6 +155,13 @@ def eval_case(case: dict) -> dict:
         elif kind == 'append':
             tb = TB(T.decode(case['base'], TB))
             expected = list(T.ref_lines(case['base']))
+            if case.get('bulk'):
+                bulk = [f'line {k}' for k in range(case['bulk'])]
+                tb.append(list(bulk))
+                expected.extend(bulk)
+                cnt['blocks_of_a_thousand_lines_and_more'] = 1
+            if str(tb) != ''.join(x + '\n' for x in expected):
+                _viol(out, 'string-form-differs-from-lines', case, got=str(tb)[-120:])
             for op, enc in case['ops']:
                 arg = T.decode(enc, TB)
                 arg_lines = T.ref_lines(enc)
@@ -176,6 +187,12 @@ def eval_case(case: dict) -> dict:
                 if tb.lines != expected:
                     _viol(out, f'{op}-is-not-concatenation', case, expected=expected[:20],
                           got=tb.lines[:20])
+                    break
+                # the string form follows: every line and a newline, after every step (a block
+                # is printed, extended, printed again)
+                if str(tb) != ''.join(x + '\n' for x in expected):
+                    _viol(out, 'string-form-differs-from-lines', case, after=op,
+                          expected_tail=expected[-3:], got=str(tb)[-120:])
                     break
         elif kind == 'trim':
             tb = TB()
@@ -324,7 +341,8 @@ def main(tier: str) -> int:
     run.require('lines_compared', 'invariant_evaluations', 'concatenations', 'trims', 'chunks',
                 'blocks_poured_into_blocks',
                 'cond_chunks', 'roundtrips', 'cases_with_line_boundaries',
-                'pieces_that_are_one_object_at_several_places')
+                'pieces_that_are_one_object_at_several_places',
+                'blocks_of_a_thousand_lines_and_more')
     jobs = [(run.seed, i, per) for i in range(total // per)]
     for _item, res in run.pmap(_worker, jobs):
         if 'harness_error' in res:
